@@ -540,6 +540,8 @@ def sig_of(kind, detail, case):
         clause = " ".join(detail.split(" ")[1:3])
     elif kind == "fault":
         clause = detail.split(" ")[1] if " " in detail else detail
+        if "load_of_value" in clause and "not_a_valid_value_for_type" in clause:
+            clause = "enum-load"           # the value and the truncated type name vary
     return {"kind": kind, "clause": clause, "op": last, "init": first}
 
 
@@ -563,6 +565,10 @@ def run(chk):
         for k, v in st.items():
             total[k] = total.get(k, 0) + v
 
+    # KF-C10-1 is reproduced on every run: a question whose type / class is not a value of the plain enums
+    go([[f"parse {hexs(hdr(1, 0, 0, 0) + wire_name([b'a']) + struct.pack('>HH', 255, 1))}"],
+        [f"parse {hexs(hdr(1, 0, 0, 0) + wire_name([b'a']) + struct.pack('>HH', 1, 256))}"],
+        ["new", f"addq {hexs(b'a.b')} 65 1"]])
     # directed streams first: malformed names, label counts, pointer chains, realistic responses, small-scope exhaustive
     go(malformed_cases(rng))
     go(label_count_cases())
